@@ -92,6 +92,32 @@ def signature_only_history():
     return specs, evos
 
 
+def new_model_history():
+    """a model that first appears in a later version (with a foreign key and an indexed column: its indexes are
+    deferred SQL of the model creation), next to ordinary evolutions of an older model"""
+    def fld(name, t, related=None, **attrs):
+        return {'name': name, 'type': t, 'attrs': attrs, 'related': related}
+
+    def mdl(name, fields):
+        return {'name': name, 'table': 'vapp_%s' % name.lower(), 'unique_together': [], 'index_together': [],
+                'indexes': [], 'constraints': [], 'fields': [fld('id', 'AutoField', primary_key=True)] + fields}
+    cust0 = [fld('name', 'CharField', max_length=20, null=True)]
+    cust1 = cust0 + [fld('phone', 'CharField', max_length=20, null=True)]
+    cust2 = cust1 + [fld('notes', 'CharField', max_length=50, null=True)]
+    order = mdl('Order', [fld('customer', 'ForeignKey', 'vapp.Customer', null=True),
+                          fld('reference', 'CharField', max_length=12, null=True, db_index=True),
+                          fld('lines', 'ManyToManyField', 'vapp.Customer')])
+    invoice = mdl('Invoice', [fld('order', 'ForeignKey', 'vapp.Order', null=True)])
+    specs = [{'apps': [{'id': 'vapp', 'models': [mdl('Customer', cust0)]}]},
+             {'apps': [{'id': 'vapp', 'models': [mdl('Customer', cust1), order]}]},
+             {'apps': [{'id': 'vapp', 'models': [mdl('Customer', cust2), order]}]},
+             {'apps': [{'id': 'vapp', 'models': [mdl('Customer', cust2), order, invoice]}]}]
+    add = lambda f, n: {'t': 'AddField', 'model': 'Customer', 'field': f, 'ftype': 'CharField', 'initial': None,
+                        'attrs': [['max_length', str(n)], ['null', 'true']]}
+    evos = [[add('phone', 20)], [add('notes', 50)], []]
+    return specs, evos
+
+
 def two_app_history():
     """two apps whose evolutions carry the same labels (labels are only unique within an app's SEQUENCE) and
     become pending in different versions: V1 ships vapp's `add_fields`, V2 ships wapp's `add_fields`, V3 ships
@@ -123,6 +149,24 @@ def two_app_history():
     return specs, evos
 
 
+def touched_tables(specs, muts, schema):
+    """tables that some mutation of the segment can have altered: the tables of every model a mutation names (under
+    any name the model has in any version) and their many-to-many tables.  Every other table - in particular the
+    tables of models that are merely CREATED along the way - has no excuse to differ between two paths."""
+    names = set()
+    for m in muts:
+        for k in ('model', 'old', 'new'):
+            if m.get(k) and m['t'] != 'RenameField' or (k == 'model' and m.get(k)):
+                names.add(m[k])
+    tables = set()
+    for sp in specs:
+        for a in sp['apps']:
+            for md in a['models']:
+                if md['name'] in names:
+                    tables.add(md['table'])
+    return {t: 1 for t in schema if any(t == x or t.startswith(x + '_') for x in tables)}
+
+
 def parts(i, e):
     """the (app, label, mutations) evolutions that version i+1 adds"""
     if isinstance(e, dict):
@@ -136,7 +180,7 @@ def muts_of(e):
     return [m for _, _, ms in parts(0, e) for m in ms]
 
 
-SCRIPTED = [scripted_history, two_app_history, signature_only_history]
+SCRIPTED = [scripted_history, two_app_history, signature_only_history, new_model_history]
 
 
 def install(specs, evos, version):
@@ -205,7 +249,7 @@ def run(ctx):
     ctx.rule = ('linear histories V0..Vn (n<=3 quick, <=4 thorough) of one app (plus a two-app history whose apps reuse evolution labels), each step a generated evolution of 1-3 '
                 'mutations in SEQUENCE; for every start point i: stepwise and direct upgrades with identical initial rows, '
                 'and a fresh install of Vn; front ends Evolver.evolve, `evolve --execute`, `migrate`; non-trivial = n>=2')
-    nh = 22 if quick else 150
+    nh = 25 if quick else 150
     done = tries = 0
     opt_w = None
     noop_w = None
@@ -315,7 +359,7 @@ def run(ctx):
                 sd = dbrig.schema_diff(st['schema'], fresh['schema'])
                 if sd:
                     from .c01 import classify
-                    kinds = classify(st['schema'], fresh['schema'], {t: 1 for t in st['schema']}, flat)
+                    kinds = classify(st['schema'], fresh['schema'], touched_tables(specs, flat, st['schema']), flat)
                     if all(fid is not None for fid, _ in kinds):
                         ctx.count('schema_differs_known_C01')
                     else:
@@ -339,7 +383,7 @@ def run(ctx):
                     opt_w = opt_w or r
                 else:
                     from .c01 import classify
-                    kinds = classify(b['schema'], a['schema'], {t: 1 for t in a['schema']}, seg)
+                    kinds = classify(b['schema'], a['schema'], touched_tables(specs, seg, a['schema']), seg)
                     if a['rows'] == b['rows'] and kinds and all(fid is not None for fid, _ in kinds):
                         ctx.count('schema_differs_known_C01')
                     else:
